@@ -164,53 +164,37 @@ func (e *Engine) verifyBlock(blk *Block) (u *Unit) {
 	// frame obligations: object fields of the types of the named pointer
 	// parameters change only at those objects
 	if len(blk.Modifies) > 0 && !blk.Flags["trusted"] {
+		refsByPrefix := f.frameRefs(blk, fn.Params, f.argVals, f.entry.clone())
+		var prefixes []string
+		for p := range refsByPrefix {
+			prefixes = append(prefixes, p)
+		}
+		sort.Strings(prefixes)
 		for ri, r := range f.rets {
-			for _, m := range blk.Modifies {
-				for i, pn := range blk.ParamNames {
-					if pn != m || i >= len(fn.Params) {
+			for _, prefix := range prefixes {
+				refs := refsByPrefix[prefix]
+				var keys []string
+				for key := range r.st.Heap {
+					if strings.HasPrefix(key, prefix) {
+						keys = append(keys, key)
+					}
+				}
+				sort.Strings(keys)
+				for _, key := range keys {
+					fin := r.st.Heap[key]
+					ent := c.heapGet(f.entry, key, fin.Sort)
+					if ent.S == fin.S {
 						continue
 					}
-					prefixOf := func(t types.Type) string {
-						if pt, ok := t.Underlying().(*types.Pointer); ok {
-							return "H|" + typeKey(pt.Elem()) + "|"
-						}
-						if sl, ok := t.Underlying().(*types.Slice); ok {
-							return "A|" + elemKey(sl.Elem()) + "|"
-						}
-						return ""
+					c.n++
+					q := Term{fmt.Sprintf("fr!%d", c.n), SInt}
+					var ne []Term
+					for _, rf := range refs {
+						ne = append(ne, Not(Eq(q, rf)))
 					}
-					prefix := prefixOf(fn.Params[i].Type())
-					if prefix == "" {
-						continue
-					}
-					var refs []Term
-					for _, m2 := range blk.Modifies {
-						for j, pn2 := range blk.ParamNames {
-							if pn2 == m2 && j < len(fn.Params) {
-								if prefixOf(fn.Params[j].Type()) == prefix {
-									refs = append(refs, f.argVals[j][0])
-								}
-							}
-						}
-					}
-					for key, fin := range r.st.Heap {
-						if !strings.HasPrefix(key, prefix) {
-							continue
-						}
-						ent := c.heapGet(f.entry, key, fin.Sort)
-						if ent.S == fin.S {
-							continue
-						}
-						c.n++
-						q := Term{fmt.Sprintf("fr!%d", c.n), SInt}
-						var ne []Term
-						for _, rf := range refs {
-							ne = append(ne, Not(Eq(q, rf)))
-						}
-						ne = append(ne, Lt(q, f.entry.Alloc)) // objects allocated by the call itself are not part of the frame
-						goal := Forall([]Term{q}, Implies(And(ne...), Eq(Select(fin, q), Select(ent, q))))
-						c.addObl(&Obligation{Name: fmt.Sprintf("%s/frame:%s@ret%d", name, smtSym(key), ri), Kind: "post", Fn: name, Pos: e.ld.Prog.Fset.Position(fn.Pos()), Text: "modifies " + strings.Join(blk.Modifies, ", ") + "  [" + key + " unchanged elsewhere]", Reach: r.st.Reach, Goal: goal})
-					}
+					ne = append(ne, Lt(q, f.entry.Alloc)) // objects allocated by the call itself are not part of the frame
+					goal := Forall([]Term{q}, Implies(And(ne...), Eq(Select(fin, q), Select(ent, q))))
+					c.addObl(&Obligation{Name: fmt.Sprintf("%s/frame:%s@ret%d", name, smtSym(key), ri), Kind: "post", Fn: name, Pos: e.ld.Prog.Fset.Position(fn.Pos()), Text: "modifies " + strings.Join(blk.Modifies, ", ") + "  [" + key + " unchanged elsewhere]", Reach: r.st.Reach, Goal: goal})
 				}
 			}
 		}
